@@ -40,6 +40,25 @@ def onIsoCurve (x y : Nat) : Bool := Fp.sq y == isoRhs x
 
 /-! ### Simplified SWU for AB ≠ 0 (RFC 9380 §6.6.2) onto E1' -/
 
+/-- The abscissa candidate `x1` of SSWU from `tv1 = inv0(Z²u⁴ + Zu²)`. -/
+def sswuX1 (tv1 : Nat) : Nat :=
+  if tv1 == 0 then Fp.mul isoB (Fp.inv (Fp.mul sswuZ isoA))
+  else Fp.mul (Fp.mul (Fp.neg isoB) (Fp.inv isoA)) (Fp.add 1 tv1)
+
+/-- The point selection of SSWU given the result `r` of `sqrt(g'(x1))`: `(x1, √g'(x1))` if it exists, else
+`(x2, g'(x2)^((p+1)/4))` with `x2 = Z·u²·x1`. (A separate function of `r` so that proofs can case on `r` without
+the kernel having to normalise the square-root computation on an open term.) -/
+def sswuSelect (zu2 x1 : Nat) (r : Option Nat) : Nat × Nat :=
+  match r with
+  | some y1 => (x1, y1)
+  | none =>
+    let x2 := Fp.mul zu2 x1
+    (x2, Fp.pow (isoRhs x2) ((P + 1) / 4))
+
+/-- The final sign adjustment `sgn0(y) = sgn0(u)`. -/
+def sswuSign (u : Nat) (xy : Nat × Nat) : Nat × Nat :=
+  (xy.1, if Fp.sgn0 u != Fp.sgn0 xy.2 then Fp.neg xy.2 else xy.2)
+
 /-- `map_to_curve_simple_swu(u)`, returning affine `(x', y')` on E1'.
 Exceptional case: `Z²u⁴ + Zu² = 0` (i.e. `tv1 = inv0(..) = 0`; happens for `u = 0` and for
 `Z·u² = −1`) ⇒ `x1 = B' / (Z·A')`. `Fp.inv 0 = 0` is exactly `inv0`.
@@ -48,19 +67,8 @@ If `g'(x1)` is a square then `(x1, √g'(x1))` else `(x2, √g'(x2))` with `x2 =
 def sswu (u : Nat) : Nat × Nat :=
   let u := u % P
   let zu2 := Fp.mul sswuZ (Fp.sq u)
-  let tv1 := Fp.inv (Fp.add (Fp.sq zu2) zu2)
-  let x1 :=
-    if tv1 == 0 then Fp.mul isoB (Fp.inv (Fp.mul sswuZ isoA))
-    else Fp.mul (Fp.mul (Fp.neg isoB) (Fp.inv isoA)) (Fp.add 1 tv1)
-  let gx1 := isoRhs x1
-  let (x, y) :=
-    match Fp.sqrt? gx1 with
-    | some y1 => (x1, y1)
-    | none =>
-      let x2 := Fp.mul zu2 x1
-      (x2, Fp.pow (isoRhs x2) ((P + 1) / 4))
-  let y := if Fp.sgn0 u != Fp.sgn0 y then Fp.neg y else y
-  (x, y)
+  let x1 := sswuX1 (Fp.inv (Fp.add (Fp.sq zu2) zu2))
+  sswuSign u (sswuSelect zu2 x1 (Fp.sqrt? (isoRhs x1)))
 
 /-! ### The 11-isogeny E1' → E1 (RFC 9380 App. E.2). Coefficient lists are low degree first. -/
 
